@@ -26,8 +26,18 @@ def gate_table():
         if isinstance(obj, G.MatrixFactoryGate):
             table[name] = ("const", obj, 0)
         elif callable(obj) and getattr(obj, "__name__", "") == "_factory":
-            g = obj()
-            npar = len(inspect.signature(g.matrix_factory).parameters)
+            # the number of parameters is read from the matrix factory of a gate built by the prototype; the prototype is tried
+            # with 0..4 placeholder symbols (a prototype may legitimately look at its arguments)
+            npar = None
+            for n in range(5):
+                try:
+                    g = obj(*[sympy.Symbol(f"probe{i}") for i in range(n)])
+                    npar = len(inspect.signature(g.matrix_factory).parameters)
+                    break
+                except Exception:
+                    continue
+            if npar is None:
+                continue
             table[name] = ("param", obj, npar)
     return table
 
